@@ -89,13 +89,15 @@ class Block(Node):
                 # If the current node is also a media query, create a merged media
                 # query for each inner media query.
                 if self.name.tokens[0] == '@media':
-                    part_a = self.name.tokens[2:][0][0][0]
+                    # the whole (first) query of the outer block, not only its
+                    # first component: `screen and (min-width: 1px)` keeps both
+                    part_a = self.name.tokens[2:][0][0]
                     part_b = mb.name.tokens[2:][0]
                     cond = [
-                        '@media', ' ', [
+                        '@media', ' ', [[
                             part_a, (' ', 'and', ' '),
                             part_b
-                        ]
+                        ]]
                     ]
                     # TODO: mb.parsed + mb.inner reorders things again
                     mb = Block([Identifier(cond), mb.parsed + mb.inner]).parse(scope)
